@@ -318,6 +318,12 @@ class Typestate:
                             new = set()
                             for s in normal:
                                 vs = S.value_states(n.ast.value, s)
+                                if vs is None and isinstance(n.ast.value, ast.Name):
+                                    # a local that only ever holds state constants: any of its definitions (over-approximation)
+                                    defs = self.res.local_defs(fi).get(n.ast.value.id, [])
+                                    parts = [S.value_states(d, s) if isinstance(d, ast.AST) else None for d in defs]
+                                    if defs and all(p is not None for p in parts):
+                                        vs = set().union(*parts)
                                 if vs is None:
                                     # prev_state = self.state ... self.state = prev_state style: unknown -> all
                                     raise AnalysisError('typestate: non-constant state assignment `%s` in %s'
